@@ -101,6 +101,7 @@ class _PathShim:
 
 class _OsShim:
     path = _PathShim
+    curdir, pardir, sep = ".", "..", "/"
     walk = staticmethod(v_walk)
     scandir = staticmethod(v_scandir)
     makedirs = staticmethod(v_makedirs)
